@@ -81,8 +81,13 @@ func genC06(t *rapid.T) c06Case {
 	for i := 0; i < n; i++ {
 		c.RPCs = append(c.RPCs, genRPC06(t, &excl))
 	}
-	if rapid.IntRange(0, 2).Draw(t, "points") == 0 {
+	switch rapid.IntRange(0, 3).Draw(t, "points") {
+	case 0:
 		c.Cfg.Points = []string{"conn.NewStream.afterNewClientStream", "conn.Invoke.afterNewClientStream"}
+	case 1:
+		// the goroutine that watches a stream's context is late: the call can be over, and its context
+		// cancelled, before that goroutine looks at either
+		c.Cfg.Points = []string{"manager.manageStream.enter"}
 	}
 	c.Concurrent = rapid.IntRange(0, 2).Draw(t, "concurrent") == 0
 	c.StallDir = rapid.IntRange(0, 2).Draw(t, "stalldir")
